@@ -296,6 +296,7 @@ func genC04(t *rapid.T) c04Case {
 	}
 	pool := vGenNamePool(t, true, rapid.IntRange(1, 6).Draw(t, "npool"), "pool")
 	var d vDoc
+	forceCLI := false
 	for i := 0; i < nrec; i++ {
 		var head string
 		if isLog {
@@ -331,11 +332,33 @@ func genC04(t *rapid.T) c04Case {
 			// a long record kept in ascending name order (repeated names next to each other)
 			sort.SliceStable(lines, func(a, b int) bool { return lines[a].Name < lines[b].Name })
 		}
-		d.Recs = append(d.Recs, vRec{Head: head, HL: vGenHeadLayout(t, lo, "hl"), Lines: lines})
+		if len(lines) > 0 && rapid.IntRange(0, 11).Draw(t, "longtwice") == 0 {
+			// a name of 64..300 bytes mentioned twice (or three times) in the record, other entries in between
+			src := lines[rapid.IntRange(0, len(lines)-1).Draw(t, "longtwicei")]
+			target := []int{63, 64, 65, 127, 128, 129, 255, 256, 300}[rapid.IntRange(0, 8).Draw(t, "longtwicen")]
+			pad := []string{"x", "я", "飯", "/seg", " y"}[rapid.IntRange(0, 4).Draw(t, "longtwicepad")]
+			nm := src.Name
+			for len(nm) < target {
+				nm += pad
+			}
+			nm += "z"
+			for k := rapid.IntRange(2, 3).Draw(t, "longtwicek"); k > 0; k-- {
+				at := rapid.IntRange(0, len(lines)).Draw(t, "longtwiceat")
+				ln := vLine{Kind: vkEntry, Name: nm, Num: vGenNumAny(t, "longtwicenum"), L: vGenEntryLayout(t, lo, "longtwicel")}
+				lines = append(lines[:at], append([]vLine{ln}, lines[at:]...)...)
+			}
+			forceCLI = true
+		}
+		hl := vGenHeadLayout(t, lo, "hl")
+		if !isLog && rapid.IntRange(0, 9).Draw(t, "hashhead") == 0 {
+			// a name that begins with the comment character can only be written quoted, and only as a heading
+			head, hl.Quote = "#"+head, true
+		}
+		d.Recs = append(d.Recs, vRec{Head: head, HL: hl, Lines: lines})
 	}
 	vDecorate(t, &d, lo, true, "deco")
 	alt := vRelayout(t, d)
-	return c04Case{Doc: d, Alt: alt, CLI: rapid.IntRange(0, 9).Draw(t, "cli") == 0, IsLog: isLog}
+	return c04Case{Doc: d, Alt: alt, CLI: rapid.IntRange(0, 9).Draw(t, "cli") == 0 || forceCLI, IsLog: isLog}
 }
 
 // vRelayout draws a fresh layout for the same content: entries and notes are
@@ -345,6 +368,9 @@ func vRelayout(t *rapid.T, d vDoc) vDoc {
 	var out vDoc
 	for _, r := range d.Recs {
 		nr := vRec{Head: r.Head, HL: vGenHeadLayout(t, lo2, "alt.hl")}
+		if strings.HasPrefix(r.Head, "#") {
+			nr.HL.Quote = true // unquoted it would be a comment line
+		}
 		for _, l := range r.Lines {
 			nl := l
 			switch l.Kind {
